@@ -182,26 +182,32 @@ func (info *decodeInfo) decodeCharString(code []byte) (*Glyph, error) {
 			switch op {
 			case t2rmoveto:
 				setGlyphWidth(len(stack) > 2)
-				if len(stack) >= 2 {
-					rMoveTo(stack[0], stack[1])
+				if len(stack) < 2 {
+					return nil, errStackUnderflow
 				}
+				rMoveTo(stack[0], stack[1])
 				clearStack()
 
 			case t2hmoveto:
 				setGlyphWidth(len(stack) > 1)
-				if len(stack) >= 1 {
-					rMoveTo(stack[0], 0)
+				if len(stack) < 1 {
+					return nil, errStackUnderflow
 				}
+				rMoveTo(stack[0], 0)
 				clearStack()
 
 			case t2vmoveto:
 				setGlyphWidth(len(stack) > 1)
-				if len(stack) >= 1 {
-					rMoveTo(0, stack[0])
+				if len(stack) < 1 {
+					return nil, errStackUnderflow
 				}
+				rMoveTo(0, stack[0])
 				clearStack()
 
 			case t2rlineto:
+				if len(stack) < 2 {
+					return nil, errStackUnderflow
+				}
 				pos := 0
 				for pos+1 < len(stack) {
 					rLineTo(stack[pos], stack[pos+1])
@@ -210,6 +216,9 @@ func (info *decodeInfo) decodeCharString(code []byte) (*Glyph, error) {
 				clearStack()
 
 			case t2hlineto, t2vlineto:
+				if len(stack) < 1 {
+					return nil, errStackUnderflow
+				}
 				horizontal := op == t2hlineto
 				for _, z := range stack {
 					if horizontal {
@@ -222,6 +231,9 @@ func (info *decodeInfo) decodeCharString(code []byte) (*Glyph, error) {
 				clearStack()
 
 			case t2rrcurveto, t2rcurveline, t2rlinecurve:
+				if op == t2rrcurveto && len(stack) < 6 || op != t2rrcurveto && len(stack) < 8 {
+					return nil, errStackUnderflow
+				}
 				tmp := stack
 				for op == t2rlinecurve && len(tmp) >= 8 {
 					rLineTo(tmp[0], tmp[1])
@@ -239,6 +251,9 @@ func (info *decodeInfo) decodeCharString(code []byte) (*Glyph, error) {
 				clearStack()
 
 			case t2hhcurveto:
+				if len(stack) < 4 {
+					return nil, errStackUnderflow
+				}
 				tmp := stack
 				var dy1 float64
 				if len(tmp)%4 != 0 {
@@ -254,6 +269,9 @@ func (info *decodeInfo) decodeCharString(code []byte) (*Glyph, error) {
 				clearStack()
 
 			case t2vvcurveto:
+				if len(stack) < 4 {
+					return nil, errStackUnderflow
+				}
 				tmp := stack
 				var dx1 float64
 				if len(tmp)%4 != 0 {
@@ -269,6 +287,9 @@ func (info *decodeInfo) decodeCharString(code []byte) (*Glyph, error) {
 				clearStack()
 
 			case t2hvcurveto, t2vhcurveto:
+				if len(stack) < 4 {
+					return nil, errStackUnderflow
+				}
 				tmp := stack
 				horizontal := op == t2hvcurveto
 				for len(tmp) >= 4 {
@@ -291,6 +312,9 @@ func (info *decodeInfo) decodeCharString(code []byte) (*Glyph, error) {
 				clearStack()
 
 			case t2flex:
+				if len(stack) < 13 {
+					return nil, errStackUnderflow
+				}
 				if len(stack) >= 13 {
 					rCurveTo(stack[0], stack[1],
 						stack[2], stack[3],
@@ -302,6 +326,9 @@ func (info *decodeInfo) decodeCharString(code []byte) (*Glyph, error) {
 				}
 				clearStack()
 			case t2flex1:
+				if len(stack) < 11 {
+					return nil, errStackUnderflow
+				}
 				if len(stack) >= 11 {
 					rCurveTo(stack[0], stack[1],
 						stack[2], stack[3],
@@ -322,6 +349,9 @@ func (info *decodeInfo) decodeCharString(code []byte) (*Glyph, error) {
 				}
 				clearStack()
 			case t2hflex:
+				if len(stack) < 7 {
+					return nil, errStackUnderflow
+				}
 				if len(stack) >= 7 {
 					rCurveTo(stack[0], 0,
 						stack[1], stack[2],
@@ -333,6 +363,9 @@ func (info *decodeInfo) decodeCharString(code []byte) (*Glyph, error) {
 				}
 				clearStack()
 			case t2hflex1:
+				if len(stack) < 9 {
+					return nil, errStackUnderflow
+				}
 				if len(stack) >= 9 {
 					rCurveTo(stack[0], stack[1],
 						stack[2], stack[3],
